@@ -38,7 +38,11 @@ fn audit_graft(h: &Snap, g: &Snap, t: &crate::snap::SNode, hi: usize, gi: usize,
     let gn = g.node(gi);
     let (mat, bias) = if gn.has_children() { exact_update_decision(gn, t) } else { exact_update_terminal(gn, t) };
     let scale = magnitude(gn) * magnitude(t) * (1.0 + t.mat.len() as f64);
-    coeffs_match(hn, &mat, &bias, exact, scale).map_err(|e| format!("h node {} (copy of g node {}): {}", hi, gi, e))?;
+    if gn.has_children() {
+        predicate_matches_up_to_scale(hn, &mat, &bias, exact, scale).map_err(|e| format!("h node {} (copy of decision {} of g): {}", hi, gi, e))?;
+    } else {
+        coeffs_match(hn, &mat, &bias, exact, scale).map_err(|e| format!("h node {} (copy of terminal {} of g): {}", hi, gi, e))?;
+    }
     if hn.children.len() != gn.children.len() {
         return Err("branching factor changed".into());
     }
@@ -75,7 +79,19 @@ fn run<const K: usize>(case: u64, rng: &mut Rng, ev: &mut Ev) {
     let scr_f = rng.chance(0.5);
     let mut f = gen::build::<K>(&fs, rng, scr_f);
     let scr_g = rng.chance(0.5);
-    let g = gen::build::<K>(&gs, rng, scr_g);
+    let mut g = gen::build::<K>(&gs, rng, scr_g);
+    if K == 2 && rng.chance(0.25) {
+        // the right operand may carry cached feasibility states of its own
+        if lib(case, "infeasible_elimination (setup of g)", || {
+            g.infeasible_elimination();
+        })
+        .is_err()
+            || snap(&g).wf_aff(None).is_err()
+        {
+            ev.skip("setup of g failed (C03/C04's subject)");
+            return;
+        }
+    }
     ev.evaluations += 1;
     // give f cached feasibility states sometimes (binary trees only)
     let mut cached = false;
